@@ -95,6 +95,12 @@ def run_case(case, res):
         # an integer-valued function (labels / counts): eval() returns an integer-typed array
         f = hooks.VFunction([hooks.comp_int_hash(case["seed"]), hooks.comp_int_hash(case["seed"] + 1)], integer_valued=True)
         res.count("integer_valued_function")
+    elif rng.random() < 0.1:
+        # the same kind of function at a magnitude of 1e-9 / 1e-12 (interpolation is linear; nothing may be rounded to zero)
+        fs = rng.choice([1e-9, 1e-12])
+        f = hooks.VFunction([(lambda q, g=hooks.comp_hash(case["seed"]): fs * g(q)), (lambda q, g=hooks.comp_peak([0.3] * d, 0.2): fs * g(q))])
+        f.magnitude = fs
+        res.count("function_magnitude_tiny")
     else:
         f = hooks.VFunction([hooks.comp_hash(case["seed"]), hooks.comp_peak([0.3] * d, 0.2)])
     err = extsplit.make_err(cfg)
